@@ -5,7 +5,7 @@ import os
 import vpcore as v
 
 DESIGN_INVS = ["D_WriterWellFormed", "D_RoundTrip", "D_FieldsComplete", "D_MutSensitive",
-               "D_TruncOverruns", "D_NoSpuriousOverrun", "D_NextHop"]
+               "D_TruncOverruns", "D_NoSpuriousOverrun", "D_NextHop", "D_ExtFlag"]
 
 
 def design(run, pools, workers=6):
